@@ -24,7 +24,10 @@ pub broadcast axiom fn axiom_disp_usize(n: &usize) ensures #[trigger] disp::<usi
 pub broadcast axiom fn axiom_disp_i32(n: &i32) ensures #[trigger] disp::<i32>(n) == dec(*n as int);
 pub broadcast axiom fn axiom_disp_u32(n: &u32) ensures #[trigger] disp::<u32>(n) == dec(*n as int);
 pub broadcast axiom fn axiom_disp_u64(n: &u64) ensures #[trigger] disp::<u64>(n) == dec(*n as int);
-pub broadcast group group_disp { axiom_indent_of_str, axiom_str_of_str, axiom_str_of_string, axiom_disp_string, axiom_disp_str, axiom_disp_ref, axiom_disp_usize, axiom_disp_i32, axiom_disp_u32, axiom_disp_u64 }
+/// `String::to_string()` goes through Display (vstd leaves the blanket impl open per type): the characters of the string
+pub broadcast axiom fn axiom_to_string_string(s: &String, r: String)
+    ensures #[trigger] vstd::string::to_string_from_display_ensures::<String>(s, r) ==> r@ == s@;
+pub broadcast group group_disp { axiom_to_string_string, axiom_indent_of_str, axiom_str_of_str, axiom_str_of_string, axiom_disp_string, axiom_disp_str, axiom_disp_ref, axiom_disp_usize, axiom_disp_i32, axiom_disp_u32, axiom_disp_u64 }
 
 /// the lower-case hexadecimal SHA-256 digest of a text (crate sha256, not modelled)
 pub uninterp spec fn sha256_hex(s: Seq<char>) -> Seq<char>;
